@@ -141,6 +141,23 @@ Theorem C16_max_timeout : forall bs,
 Proof. exact max_timeout. Qed.
 Print Assumptions C16_max_timeout.
 
+(* New does not modify the configuration value it is given: however often a proxy is built
+   from the same configuration, every build is the first one (same regular list handed to the
+   wrapped factory, same shadow list, same timeout) and the configuration is unchanged *)
+Theorem C16_rebuild : forall n bs, rebuilds n bs = (repeat (shadow_new bs) n, bs).
+Proof. exact rebuilds_same. Qed.
+Print Assumptions C16_rebuild.
+
+(* whereas filtering the regular backends in place over the caller's array builds the right
+   proxy once and then, from [shadow; regular], an endpoint without shadow backend that calls
+   the regular backend twice *)
+Theorem C16_inplace_filter_refuted : exists bs,
+  fst (new_inplace bs) = BShadowed [rb_reg] [rb_sh] 2000%Z /\
+  snd (new_inplace bs) <> bs /\
+  fst (new_inplace (snd (new_inplace bs))) = BPlain [rb_reg; rb_reg].
+Proof. exact inplace_filter_refuted. Qed.
+Print Assumptions C16_inplace_filter_refuted.
+
 (* ---- detached and bounded ---- *)
 (* whatever cancel functions are called outside (every frame of the client's context, in any
    order, at any time), the shadow context is not done before its own deadline *)
